@@ -87,6 +87,8 @@ def judge(sessions, cmp=("value",), mode="used", maxsteps=60000, trace=False, ti
               "wantast": True, "trace": trace}
         if budget:
             rs["budget"] = budget
+        if s.get("pregrow"):
+            rs["pregrow"] = s["pregrow"]
         real_in.append(rs)
     real = vlib.run_real(real_in)
     verdicts = {}
